@@ -43,16 +43,17 @@ from jax import random  # noqa: E402
 import nifty.re as jft  # noqa: E402
 
 
-def variance(complex_data, complex_par, n=20000):
+def variance(complex_data, complex_par, batches=40, batch=250):
     """d = x + n, unit noise, x scalar: metric 2 per real degree of freedom => residual variance 1/2"""
-    data = jnp.zeros(1, dtype=complex if complex_data else float)
+    ddt = jnp.complex128 if complex_data else jnp.float64
     pdt = jnp.complex128 if complex_par else jnp.float64
-    lh = jft.Gaussian(data, noise_cov_inv=lambda t: t, noise_std_inv=lambda t: t).amend(
-        lambda x: x, domain=jax.ShapeDtypeStruct((1,), pdt))
+    lh = jft.Gaussian(jnp.zeros(1, dtype=ddt), noise_cov_inv=lambda t: t, noise_std_inv=lambda t: t).amend(
+        lambda x: x.astype(ddt), domain=jax.ShapeDtypeStruct((1,), pdt))
     pos = jnp.zeros(1, dtype=pdt)
     draw = jax.jit(jax.vmap(lambda k: jft.draw_linear_residual(
         lh, pos, k, cg=jft.conjugate_gradient.static_cg, cg_kwargs=dict(absdelta=1e-20, maxiter=10, miniter=0))[0]))
-    r = np.asarray(draw(random.split(random.PRNGKey(1), n)))[:, 0]
+    # (XLA compile time grows with the vmapped batch size: draw in small batches)
+    r = np.concatenate([np.asarray(draw(random.split(random.PRNGKey(b), batch)))[:, 0] for b in range(batches)])
     return float(np.var(r.real)), (float(np.var(r.imag)) if complex_par else None)
 
 
